@@ -1,86 +1,68 @@
-"""C06: sgr_face against the reference SGR interpreter, one harness per parameter *structure*.
+"""C06: sgr_face against the reference SGR interpreter, one harness per parameter *template*.
 
-Each structure is a concrete byte string in which every numeric field is one marker digit (D) - its value is
-a fully symbolic usize delivered through the number_decode contract stub - or empty. Values are unbounded;
-the structure (number of groups / sub-parameters) is what is bounded, hence kind=bounded."""
+A template is a concrete SGR parameter string in which letters a..j stand for numeric fields of ANY value
+(fully symbolic usize, delivered through the number_decode contract stub). Codes that decide how many of
+the following parameters are consumed (38/48/58 and the mode after them) and all codes but the last are
+concrete in each template - that keeps sgr_face's iterator state concrete for CBMC - so the harnesses are
+bounded in parameter structure (kind=bounded) while complete in the symbolic fields."""
 import os
 _here = os.path.dirname(os.path.abspath(__file__))
 COMMON = open(os.path.join(_here, "_dec_common.rs")).read()
 
-# structure strings: D = a numeric field, ';' group separator, ':' sub-parameter separator
-# (structure, positions of D fields fixed to an extended-colour introducer 38|48|58).
-# All other numeric fields range over every usize except 38, 48 and 58 (that case split keeps the
-# iterator state of sgr_face concrete enough for CBMC; it is part of the stated bound).
-QUICK = [
-    ("", ()),                 # CSI m
-    ("D", ()),
-    ("D;D", ()),
-    ("D;D;D", ()),
-    (";D", ()), ("D;", ()), ("D;;D", ()),
-    ("D:D", ()), ("D:D;D", ()), ("D;D:D", ()),
-    ("D:D:D", (0,)),            # 38:5:n
-    ("D:D:D:D:D", (0,)),        # 38:2:r:g:b
-    ("D:D::D:D:D", (0,)),       # 38:2::r:g:b (empty colour space)
-    ("D:D:D:D:D:D", (0,)),      # 38:2:cs:r:g:b
-    ("D;D;D", (0,)),            # 38;5;n
-    ("D;D;D;D", (0,)),          # 38;5;n;X
-    ("D;D;D;D;D", (0,)),        # 38;2;r;g;b
-    ("D;D;D;D;D", ()),          # five plain codes
-    ("D;D;D;D;D;D;D", (0,)),    # 38;2;r;g;b;X;Y  /  38;5;n;X;Y;Z;W
-    ("D;D;D;D;D;D;D", (1,)),    # X;38;2;r;g;b;Y
-    ("D:D:D:D:D;D:D:D:D:D", (0, 5)),  # fg and bg in colon form
-    ("D;D:D:D:D:D;D", (1,)),
+FIRST = [0, 1, 3, 4, 5, 9, 22, 23, 24, 25, 29, 31, 44, 95, 104, 50]
+QUICK = ["", "a", "a:b", "a:b:c", ";a", "1;"]
+QUICK += ["%d;a" % c for c in FIRST]
+QUICK += [
+    "4:a", "4:a;b", "4:3;a",
+    "1;0;a", "0;1;a", "31;1;0;a", "1;4;31;0", "3;0;9", "1;;a",
+    "38;5;a", "38;5;a;b", "48;5;a;b", "58;5;a;b",
+    "38;2;a;b;c", "38;2;a;b;c;d", "48;2;a;b;c;d", "58;2;a;b;c;d",
+    "38;2;a;b;c;48;2;d;e;f",          # what the encoder emits for a face with fg and bg
+    "1;38;5;a;b", "1;38;2;a;b;c;d",
+    "38:5:a", "38:5:a;b", "38:2:a:b:c", "38:2:a:b:c;d", "38:2::a:b:c", "38:2:a:b:c:d", "48:2:a:b:c;d", "58:2:a:b:c",
+    "38:2:a:b:c;48:2:d:e:f;g",
 ]
 THOROUGH = [
-    ("D;D;D;D;D;D;D", ()),
-    ("D;D;D;D;D;D;D;D;D;D", (0, 5)),   # 38;2;r;g;b;48;2;r;g;b  - what the encoder emits for fg+bg
-    ("D;D;D;D;D;D;D;D", (0, 3)),       # 38;5;n;48;5;m;X;Y
-    ("D:D:D;D:D:D;D:D", (0, 3)),
-    ("D;D;D;D;D;D:D", (0,)),
-    ("D:D;D;D;D;D;D", (2,)),
+    "0;38;2;a;b;c;48;2;d;e;f;4:3;1;3;9",   # a full Face as the encoder writes it
+    "38;2;a;b;c;48;2;d;e;f;58;2;g;h;i;j",
+    "1;3;5;9;a", "22;23;25;29;a", "1;22;3;23;a",
+    "38;5;a;48;5;b;58;5;c;d",
+    "4:a;24;b", "24;4:a;b",
 ]
 
-def render(shape):
+def fields(tmpl):
     out = []
-    k = 0
-    for ch in shape:
-        if ch == "D":
-            out.append(str(k)); k += 1
-        else:
-            out.append(ch)
-    assert k <= 10, shape
-    return "".join(out)
+    for grp in tmpl.split(";"):
+        fs = []
+        for f in grp.split(":"):
+            if f == "":
+                fs.append("F::Empty")
+            elif f.isdigit():
+                fs.append("F::Num(%s)" % f)
+            else:
+                assert len(f) == 1 and "a" <= f <= "j", tmpl
+                fs.append("F::Sym(%d)" % (ord(f) - ord("a")))
+        out.append("&[" + ", ".join(fs) + "]")
+    return "&[" + ", ".join(out) + "]"
 
-def harness(spec, tier, idx):
-    shape, ext = spec
-    buf = render(shape)
-    nd = shape.count("D")
-    name = "c06_sgr_shape_%s%02d" % ("q" if tier == "quick" else "t", idx)
-    assumes = []
-    for k in range(nd):
-        if k in ext:
-            assumes.append("    kani::assume(v[%d] == 38 || v[%d] == 48 || v[%d] == 58);" % (k, k, k))
-        else:
-            assumes.append("    kani::assume(v[%d] != 38 && v[%d] != 48 && v[%d] != 58);" % (k, k, k))
-    desc = shape or "<empty>"
-    if ext:
-        desc += " with field(s) %s in {38,48,58}" % ",".join(str(e) for e in ext)
+def harness(tmpl, tier, idx):
+    name = "c06_sgr_%s%02d" % ("q" if tier == "quick" else "t", idx)
+    shown = tmpl or "<empty>"
     return '''
-//# kind=bounded tier=%s props=C06 bound="parameter structure `%s` (D = any number; other fields != 38,48,58), every numeric value" fns=sgr_face,sgr_color | sgr_face equals the reference SGR interpreter on `CSI %s m` for all values of the numeric fields
+//# kind=bounded tier=%s props=C06 bound="parameter template `%s` (letters = any usize)" fns=sgr_face,sgr_color | sgr_face(`%s`) equals the reference SGR interpreter for all values of the symbolic fields
 #[kani::proof]
 #[kani::unwind(%d)]
 #[kani::stub(number_decode, number_decode_stub)]
 fn %s() {
     let v = set_vals();
-%s
     let buf: &[u8] = b"%s";
-    let want = ref_sgr(buf, buf.len(), &v);
+    let want = ref_sgr(%s, &v);
     kani::assume(want.defined);
     let got = if stub_active() { sgr_face(buf) } else { sgr_face(&expand(buf, &v)) };
     assert!(got == want.face);
     kani::cover!(true);
 }
-''' % (tier, desc, shape, max(len(buf) + 3, 12), name, "\n".join(assumes), buf)
+''' % (tier, shown, shown, max(len(tmpl) + 3, 12), name, tmpl, fields(tmpl))
 
 parts = ["//@ target: src/decoder.rs\n", COMMON]
 for i, s in enumerate(QUICK):
